@@ -1,0 +1,217 @@
+//go:build verif
+
+package cache
+
+import (
+	"sort"
+	"sync"
+	"time"
+)
+
+// Verification hooks (build tag "verif" only). They expose internal state of
+// both cache backends to an external harness and let it run janitor work
+// synchronously and move stored instants, so that time can be driven by the
+// test history instead of the wall clock. Nothing here is compiled into a
+// normal build.
+
+// VerifHooks is implemented by *MemoryCache and *FileCache.
+type VerifHooks interface {
+	// VerifAge moves every stored instant (Expires, TimeWritten, LastAccess) d into the past,
+	// which is indistinguishable from the clock advancing by d.
+	VerifAge(d time.Duration)
+	// VerifKeys returns the hex keys of all entries, sorted.
+	VerifKeys() []string
+	// VerifMeta returns (size, expires, lastAccess, timeWritten) of an entry.
+	VerifMeta(hex string) (size int64, expires, lastAccess, written time.Time, ok bool)
+	VerifSetLastAccess(hex string, t time.Time) bool
+	VerifSetExpires(hex string, t time.Time) bool
+	VerifByteSize() int64
+	VerifLimit() int64
+	VerifSetMemoryCap(n int64)
+	// VerifCleanupCycle runs one janitor cycle (cleanExpiredEntries + ensureCacheSize) synchronously.
+	VerifCleanupCycle()
+	VerifCleanExpired()
+	VerifEnsureSize()
+	VerifEvict(limit int64)
+	// VerifShardOf returns the lock shard index of a key; VerifLockShard/UnlockShard hold that lock.
+	VerifShardOf(hex string) int
+	VerifLockShard(hex string)
+	VerifUnlockShard(hex string)
+	VerifShardCount() int
+}
+
+// VerifYield is called (under the verif tag only) at named points inside cache
+// code so that a harness can interleave another operation exactly there.
+var (
+	verifYieldMu sync.Mutex
+	verifYieldFn func(point string)
+)
+
+func VerifSetYield(fn func(point string)) {
+	verifYieldMu.Lock()
+	verifYieldFn = fn
+	verifYieldMu.Unlock()
+}
+
+func verifYield(point string) {
+	verifYieldMu.Lock()
+	fn := verifYieldFn
+	verifYieldMu.Unlock()
+	if fn != nil {
+		fn(point)
+	}
+}
+
+func verifShard(locks []sync.RWMutex, hex string) int {
+	l := getLock(locks, CacheKey{Hex: hex})
+	for i := range locks {
+		if &locks[i] == l {
+			return i
+		}
+	}
+	return -1
+}
+
+// ---- MemoryCache ----
+
+func (c *MemoryCache[M]) verifMetas() map[CacheKey]*EntryMetadata[M] {
+	c.mu.RLock()
+	defer c.mu.RUnlock()
+	out := make(map[CacheKey]*EntryMetadata[M], len(c.entries))
+	for k, e := range c.entries {
+		out[k] = e.meta
+	}
+	return out
+}
+
+func (c *MemoryCache[M]) VerifAge(d time.Duration) {
+	for _, m := range c.verifMetas() {
+		m.Expires = m.Expires.Add(-d)
+		m.TimeWritten = m.TimeWritten.Add(-d)
+		m.LastAccess = m.LastAccess.Add(-d)
+	}
+}
+
+func (c *MemoryCache[M]) VerifKeys() []string {
+	keys := []string{}
+	for k := range c.verifMetas() {
+		keys = append(keys, k.Hex)
+	}
+	sort.Strings(keys)
+	return keys
+}
+
+func (c *MemoryCache[M]) VerifMeta(hex string) (int64, time.Time, time.Time, time.Time, bool) {
+	m, ok := c.verifMetas()[CacheKey{Hex: hex}]
+	if !ok {
+		return 0, time.Time{}, time.Time{}, time.Time{}, false
+	}
+	return m.Size, m.Expires, m.LastAccess, m.TimeWritten, true
+}
+
+func (c *MemoryCache[M]) VerifSetLastAccess(hex string, t time.Time) bool {
+	m, ok := c.verifMetas()[CacheKey{Hex: hex}]
+	if ok {
+		m.LastAccess = t
+	}
+	return ok
+}
+
+func (c *MemoryCache[M]) VerifSetExpires(hex string, t time.Time) bool {
+	m, ok := c.verifMetas()[CacheKey{Hex: hex}]
+	if ok {
+		m.Expires = t
+	}
+	return ok
+}
+
+func (c *MemoryCache[M]) VerifByteSize() int64 { return c.byteSize.Get() }
+func (c *MemoryCache[M]) VerifLimit() int64 {
+	c.mu.RLock()
+	defer c.mu.RUnlock()
+	return min(c.maxCacheSize.Get(), c.memoryCap)
+}
+func (c *MemoryCache[M]) VerifSetMemoryCap(n int64) {
+	c.mu.Lock()
+	c.memoryCap = n
+	c.mu.Unlock()
+}
+func (c *MemoryCache[M]) VerifCleanupCycle() {
+	c.janitor.cleanExpiredEntries()
+	c.janitor.ensureCacheSize()
+}
+func (c *MemoryCache[M]) VerifCleanExpired()          { c.janitor.cleanExpiredEntries() }
+func (c *MemoryCache[M]) VerifEnsureSize()            { c.janitor.ensureCacheSize() }
+func (c *MemoryCache[M]) VerifEvict(limit int64)      { c.janitor.evict(limit) }
+func (c *MemoryCache[M]) VerifShardOf(hex string) int { return verifShard(c.locks, hex) }
+func (c *MemoryCache[M]) VerifLockShard(hex string)   { getLock(c.locks, CacheKey{Hex: hex}).Lock() }
+func (c *MemoryCache[M]) VerifUnlockShard(hex string) { getLock(c.locks, CacheKey{Hex: hex}).Unlock() }
+func (c *MemoryCache[M]) VerifShardCount() int        { return len(c.locks) }
+
+// ---- FileCache ----
+
+func (c *FileCache[M]) verifMetas() map[CacheKey]*EntryMetadata[M] {
+	c.mu.RLock()
+	defer c.mu.RUnlock()
+	out := make(map[CacheKey]*EntryMetadata[M], len(c.entriesMetadata))
+	for k, m := range c.entriesMetadata {
+		out[k] = m
+	}
+	return out
+}
+
+func (c *FileCache[M]) VerifAge(d time.Duration) {
+	for _, m := range c.verifMetas() {
+		m.Expires = m.Expires.Add(-d)
+		m.TimeWritten = m.TimeWritten.Add(-d)
+		m.LastAccess = m.LastAccess.Add(-d)
+	}
+}
+
+func (c *FileCache[M]) VerifKeys() []string {
+	keys := []string{}
+	for k := range c.verifMetas() {
+		keys = append(keys, k.Hex)
+	}
+	sort.Strings(keys)
+	return keys
+}
+
+func (c *FileCache[M]) VerifMeta(hex string) (int64, time.Time, time.Time, time.Time, bool) {
+	m, ok := c.verifMetas()[CacheKey{Hex: hex}]
+	if !ok {
+		return 0, time.Time{}, time.Time{}, time.Time{}, false
+	}
+	return m.Size, m.Expires, m.LastAccess, m.TimeWritten, true
+}
+
+func (c *FileCache[M]) VerifSetLastAccess(hex string, t time.Time) bool {
+	m, ok := c.verifMetas()[CacheKey{Hex: hex}]
+	if ok {
+		m.LastAccess = t
+	}
+	return ok
+}
+
+func (c *FileCache[M]) VerifSetExpires(hex string, t time.Time) bool {
+	m, ok := c.verifMetas()[CacheKey{Hex: hex}]
+	if ok {
+		m.Expires = t
+	}
+	return ok
+}
+
+func (c *FileCache[M]) VerifByteSize() int64      { return c.byteSize.Get() }
+func (c *FileCache[M]) VerifLimit() int64         { return c.maxCacheSize.Get() }
+func (c *FileCache[M]) VerifSetMemoryCap(n int64) {}
+func (c *FileCache[M]) VerifCleanupCycle() {
+	c.janitor.cleanExpiredEntries()
+	c.janitor.ensureCacheSize()
+}
+func (c *FileCache[M]) VerifCleanExpired()          { c.janitor.cleanExpiredEntries() }
+func (c *FileCache[M]) VerifEnsureSize()            { c.janitor.ensureCacheSize() }
+func (c *FileCache[M]) VerifEvict(limit int64)      { c.janitor.evict(limit) }
+func (c *FileCache[M]) VerifShardOf(hex string) int { return verifShard(c.locks, hex) }
+func (c *FileCache[M]) VerifLockShard(hex string)   { getLock(c.locks, CacheKey{Hex: hex}).Lock() }
+func (c *FileCache[M]) VerifUnlockShard(hex string) { getLock(c.locks, CacheKey{Hex: hex}).Unlock() }
+func (c *FileCache[M]) VerifShardCount() int        { return len(c.locks) }
